@@ -703,6 +703,13 @@ func hostileSupervisor(a Args) {
 		if done && err == nil {
 			break
 		}
+		if !strings.Contains(string(mustRead(errp)), "panic:") && !strings.Contains(string(mustRead(errp)), "fatal error:") && !strings.Contains(string(mustRead(errp)), "SIGSEGV") {
+			// the worker ended without a Go crash report (killed from outside,
+			// watchdog): nothing can be concluded from that
+			mon.Emit(mon.Result{T: "case", Engine: "hostile", Case: fmt.Sprintf("%s/%s/mode%d/worker", x.Side, x.Hdr, x.Mode), Verdict: mon.Inconclusive,
+				What: fmt.Sprintf("worker ended (%v) without a crash report after input #%d; remaining inputs of this configuration were not delivered", err, lastIdx)})
+			break
+		}
 		// the worker died: the last logged input is the witness; since inputs
 		// are processed asynchronously, replay the last few one at a time to
 		// find the one that kills the process
@@ -804,4 +811,9 @@ func panicLine(exc string) string {
 		l = l[:160]
 	}
 	return l + " @ " + fr
+}
+
+func mustRead(p string) []byte {
+	b, _ := os.ReadFile(p)
+	return b
 }
